@@ -30,6 +30,8 @@ def generate(rng, tier):
     if rng.random() < 0.15:
         env["process_model"] = "session"  # all commands of the run in one long-lived simulated process
     tree = gen.gen_tree(rng, max_entries=7, max_depth=2, hostile=0.2, unique=True, min_files=1)
+    if rng.random() < 0.3:
+        tree[rng.choice(["empty.lock", "marker"])] = {"t": "f", "c": {"gen": [0, 0]}}
     env["tree"] = tree
     files = gen.tree_files(tree)
     state = dict(tree)
